@@ -13,7 +13,7 @@ TEXT = {
                       "Scanner::scan returns intervals satisfying every clause of the property (order, k-1 overlap, length bounds, true in-window "
                       "minimal minimizer, no premature end); C07_every_kmer_once derives the exact tiling of k-mer starts. Proved by a loop "
                       "invariant over the scan, no bound on length. The same executable predicate is evaluated on the real crate's output for "
-                      "thousands of generated scans, and model and crate are diffed verbatim.",
+                      "thousands of generated scans, and model and crate are diffed verbatim. simple_scan, the deprecated wrapper the property names as a second observation point, is modelled and is Scanner::scan with the permutation score (simpleScan_eq_scan), so the same theorems apply; its answers are judged by the tiling / minimality predicate.",
         "design_ref": "DESIGN.md section 6, C07",
         "level_note": COMMON_NOTE + "Model reads the p-mer at a position directly instead of sliding it with extend_right (tied by T2 via the reported "
                       "minimizer strings). Narrowing widths (u32/u16) and the 2^32 assertion are regenerated from msp.rs. Known finding D7 (u16 "
